@@ -89,6 +89,52 @@ fn paused_rt() -> tokio::runtime::Runtime {
   tokio::runtime::Builder::new_current_thread().enable_all().start_paused(true).build().unwrap()
 }
 
+/// Several sender tasks wait for a FIRST peer (no connection yet); one peer is added: every waiting send must go
+/// through, in virtual time (paused clock: if only some are woken the rest stay parked until the scripted deadline).
+fn first_peer_case(rep: &mut Report, rng: &mut Rng) {
+  let senders = rng.range(2, 6);
+  let add_after_ms = *rng.pick(&[0u64, 1, 3, 10]);
+  let staggered = rng.chance(1, 2);
+  let rt = paused_rt();
+  let log = Arc::new(parking_lot::Mutex::new(vec![]));
+  let orch = Arc::new(Orchestrator::new());
+  let peer = mk_peer("p0", &log, None);
+  let (done, total_ms) = rt.block_on(async {
+    let t0 = tokio::time::Instant::now();
+    let mut hs = vec![];
+    for sidx in 0..senders {
+      let orch = orch.clone();
+      let stagger = if staggered { sidx as u64 } else { 0 };
+      hs.push(tokio::spawn(async move {
+        tokio::time::sleep(Duration::from_micros(stagger * 100)).await;
+        orch.route_message(batch(1000 + sidx as u64), true).await.is_ok()
+      }));
+    }
+    tokio::time::sleep(Duration::from_millis(add_after_ms)).await;
+    for _ in 0..4 {
+      tokio::task::yield_now().await;
+    }
+    orch.add_connection("p0", peer.clone());
+    let mut done = 0usize;
+    for h in hs {
+      // virtual deadline: 60 s after the peer was added
+      if let Ok(Ok(true)) = tokio::time::timeout(Duration::from_secs(60), h).await {
+        done += 1;
+      }
+    }
+    (done, t0.elapsed().as_millis() as u64)
+  });
+  rep.case(&("first_peer", senders, add_after_ms, staggered), true);
+  let accepted = peer.accepted.lock().len();
+  if done != senders || accepted != senders {
+    rep.violation(
+      "senders_waiting_for_first_peer_not_all_released".to_string(),
+      format!("{} sender tasks were waiting for a first peer; after it was added only {} sends completed and {} messages were accepted within 60 s of virtual time (peer added {} ms after the sends started)", senders, done, accepted, add_after_ms),
+      json!({"senders": senders, "completed": done, "accepted": accepted, "virtual_ms": total_ms}),
+    );
+  }
+}
+
 /// All peers always ready, constant peer set, 1..m sender tasks: round-robin fairness and
 /// exactly-once.
 fn fairness_case(rep: &mut Report, rng: &mut Rng) {
@@ -394,6 +440,55 @@ async fn e2e_case(rep: &mut Report, rng: &mut Rng, npull: usize, stalled_raw: bo
   let _ = tokio::time::timeout(Duration::from_secs(12), ctx.term()).await;
 }
 
+/// Live sockets: k tasks blocked in PUSH.send() before any peer exists; one PULL connects; all k messages must arrive
+/// exactly once and every send() must return Ok.
+async fn pending_first_peer_e2e(rep: &mut Report, tr: Transport, k: usize) {
+  let ctx = util::new_ctx();
+  let push = ctx.socket(SocketType::Push).unwrap();
+  util::set_i32(&push, opt::SNDTIMEO, 8000).await;
+  let ep = match util::bind_fresh(&push, tr).await {
+    Ok(e) => e,
+    Err(e) => {
+      rep.inconclusive(format!("bind: {e}"));
+      return;
+    }
+  };
+  let mut hs = vec![];
+  for i in 0..k {
+    let p = push.clone();
+    hs.push(tokio::spawn(async move { p.send(util::msg(format!("m{}", i).into_bytes(), false)).await.is_ok() }));
+  }
+  tokio::time::sleep(Duration::from_millis(200)).await;
+  let early = hs.iter().filter(|h| h.is_finished()).count();
+  let pull = ctx.socket(SocketType::Pull).unwrap();
+  util::set_i32(&pull, opt::RCVTIMEO, 3000).await;
+  pull.connect(&ep).await.unwrap();
+  let mut got: Vec<Vec<u8>> = vec![];
+  for _ in 0..k {
+    match pull.recv().await {
+      Ok(m) => got.push(m.data().unwrap_or(&[]).to_vec()),
+      Err(_) => break,
+    }
+  }
+  let mut ok_sends = 0;
+  for h in hs {
+    if let Ok(Ok(true)) = tokio::time::timeout(Duration::from_secs(9), h).await {
+      ok_sends += 1;
+    }
+  }
+  got.sort();
+  got.dedup();
+  rep.case(&("pending_first_peer_e2e", tr, k, early), true);
+  if got.len() != k || ok_sends != k {
+    rep.violation(
+      "senders_waiting_for_first_peer_not_all_released|e2e".to_string(),
+      format!("{} tasks were blocked in PUSH.send() with no peer; after a PULL connected over {} only {} distinct messages arrived within 3 s each and {} send() calls returned Ok ({} had returned before any peer existed)", k, tr.name(), got.len(), ok_sends, early),
+      json!({"k": k, "received": got.len(), "ok_sends": ok_sends}),
+    );
+  }
+  let _ = tokio::time::timeout(Duration::from_secs(12), ctx.term()).await;
+}
+
 fn main() {
   let args = Args::parse();
   util::install_panic_watch();
@@ -407,6 +502,11 @@ fn main() {
           rt.block_on(e2e_case(&mut rep, &mut rng, *n, *st));
         }
       }
+      for (i, (tr, k)) in [(Transport::Tcp, 4usize), (Transport::Inproc, 4), (Transport::Ipc, 2), (Transport::Tcp, 8)].iter().enumerate() {
+        if args.mine(i) {
+          rt.block_on(pending_first_peer_e2e(&mut rep, *tr, *k));
+        }
+      }
     }
     _ => {
       let n = if args.thorough() { 4000 } else { 400 };
@@ -414,6 +514,9 @@ fn main() {
         fairness_case(&mut rep, &mut rng);
         readiness_case(&mut rep, &mut rng);
         churn_case(&mut rep, &mut rng);
+        if i % 4 == 0 {
+          first_peer_case(&mut rep, &mut rng);
+        }
         if i == 0 {
           rep.sample(json!({"families": ["fairness (all ready, 1..5 peers, 1..4 sender tasks, sync/async path)", "readiness (all full at sweep time; one frees after 1..5 ms, one never; blocking timeout 5000 ms; paused clock)", "churn (add/remove/toggle-full/send histories with one always-ready member)"]}));
         }
